@@ -225,6 +225,19 @@ def canon(e, env):
         op = {'Lt': '<', 'Le': '<=', 'Gt': '>', 'Ge': '>=', 'Eq': '==', 'Ne': '!=', 'Add': '+',
               'Sub': '-', 'Mul': '*', 'Div': '/', 'Rem': '%', 'And': '&&', 'Or': '||',
               'BitAnd': '&', 'BitOr': '|'}.get(e['op'], e['op'])
+        if op in ('&&', '||', '&', '|') and e.get('ty', 'bool') in ('bool', None, ''):
+            # boolean connectives: flattened, operands sorted; a disjunction is spelled as the
+            # negated conjunction of the negations (one normal form for De Morgan pairs)
+            def flat(x, which):
+                x = peel(x)
+                if x.get('k') == 'Binary' and x['op'] in which:
+                    return flat(x['ch'][0], which) + flat(x['ch'][1], which)
+                return [x]
+            if op in ('&&', '&'):
+                parts = sorted(set(canon(x, env) for x in flat(e, ('And', 'BitAnd'))))
+                return '(%s)' % ' && '.join(parts) if len(parts) > 1 else parts[0]
+            parts = sorted(set(_neg(canon(x, env)) for x in flat(e, ('Or', 'BitOr'))))
+            return '!(%s)' % ' && '.join(parts) if len(parts) > 1 else _neg(parts[0])
         a, b = canon(e['ch'][0], env), canon(e['ch'][1], env)
         if op in ('>', '>='):
             a, b, op = b, a, {'>': '<', '>=': '<='}[op]
@@ -606,6 +619,8 @@ def _paths(e, env=None, conds=frozenset(), effects=()):
                         yield cs, x['k'].lower(), ef, en
                     elif x.get('k') in ('Assign', 'AssignOp'):
                         nxt.append((cs, ef + (_assign_str(x, en),), _after_assign(x, en)))
+                    elif x.get('ty') == '!' and x.get('k') in ('Call', 'MethodCall', 'Loop'):
+                        yield cs, 'PANIC', ef, en          # panic!(..) / unreachable!(..) statement
                     elif x.get('k') in ('For', 'While', 'Loop'):
                         nxt.append((cs, ef + (canon(x, en),), _prime(en, _mutated_names(x))))
                     else:
@@ -1026,12 +1041,17 @@ def merge_rows(t):
     return set(rows)
 
 
-def equiv(a, b):
+def equiv(a, b, unordered=False):
     """Equality of two tables up to an injective renaming of the positional names (v0, v1 ..)
     of kept lets: local variable names carry no meaning."""
     a, b = set(a), set(b)
     if a == b:
         return True
+    if unordered:
+        # effects are independent assignments: compare them as a multiset
+        ao, bo = a, b
+        a = {(cs, l, tuple(sorted(ef))) for cs, l, ef in a}
+        b = {(cs, l, tuple(sorted(ef))) for cs, l, ef in b}
     a, b = merge_rows(a), merge_rows(b)
     if len(a) != len(b):
         return False
@@ -1082,8 +1102,13 @@ def equiv(a, b):
 
         def f(x):
             return rx.sub(lambda mo: m[mo.group(1)], x)
-        if _resort_table({(frozenset(f(c) for c in cs), f(l), tuple(f(e) for e in ef))
-                          for cs, l, ef in src_t}) == dst_t:
+        cand = _resort_table({(frozenset(f(c) for c in cs), f(l), tuple(f(e) for e in ef))
+                              for cs, l, ef in src_t})
+        if unordered:
+            cand = {(cs, l, tuple(sorted(ef))) for cs, l, ef in cand}
+            if cand == {(cs, l, tuple(sorted(ef))) for cs, l, ef in dst_t}:
+                return True
+        elif cand == dst_t:
             return True
     return False
 
